@@ -1,9 +1,268 @@
-/- C04 - model (stub: not built yet) -/
+/-
+C04 - model of the trusted-identity check: `verifier.verifyX509TrustedIdentities`
+(verifier/verifier.go) with `pkix.ParseDistinguishedName` / `pkix.IsSubsetDN`
+(internal/pkix/pkix.go), at RDN level.
+
+What `ldap.ParseDN` (go-ldap) answers for a string is *input* of the model (`rdns`), as is
+the text `x509 pkix.Name.String()` renders for a certificate subject (`DN.text`): both are
+trusted libraries (DESIGN.md, C04 "A"). Everything notation-go itself does with them is
+modelled on `List Char`: the wildcard short-circuit, `strings.Cut` on the separator, the
+prefix filter, the empty-value test, the `=#` refusal, the multi-valued RDN refusal, the
+S->ST alias, duplicate detection with a presence-checking map lookup, the mandatory
+attributes, the subset test and the choice of the certificate.
+The constants are tied to the Go source by `Props.C04.facts_wf` (`Generated/C04.lean`).
+-/
 import NotationModel.Basic
 open Lean
 
 namespace NotationModel.C04
 
-def judge (_ : Json) : Except String Json := .error "C04: model not built yet"
+/-- one attributeTypeAndValue: (type, value) - JSON `[type, value]` -/
+abbrev Attr := Text × Text
+
+/-- a certificate subject as the code sees it -/
+structure DN where
+  text : Text                          -- `cert.Subject.String()`
+  rdns : Option (List (List Attr))     -- `ldap.ParseDN(text)`; `none` = it returned an error
+  deriving Repr, FromJson, ToJson
+
+/-- one entry of `trustedIdentities` -/
+structure Identity where
+  raw : Text                           -- the string as listed in the policy
+  rdns : Option (List (List Attr))     -- `ldap.ParseDN(part of raw after the first separator)`
+  deriving Repr, FromJson, ToJson
+
+structure Input where
+  identities : List Identity
+  chain : List DN                      -- subjects of the signing chain, leaf first
+  minted : List Attr                   -- ground truth: the attributes the leaf certificate was minted with
+  deriving Repr, FromJson, ToJson
+
+structure Obs where
+  pass : Bool                          -- authenticity `ValidationResult.Error == nil`
+  deriving DecidableEq, Repr, FromJson, ToJson
+
+/-! ### constants
+The constants the property statement speaks of, written out. `Props/C04.lean` (`facts_wf`) proves
+that the constants read from the Go source on every run (`Generated/C04.lean`) are equal to
+them, so a changed constant breaks that proof *and* shows as concrete failing cases. -/
+
+def wildcard : Text := ['*']
+def x509Subject : Text := ['x', '5', '0', '9', '.', 's', 'u', 'b', 'j', 'e', 'c', 't']
+def separator : Char := ':'
+def unsupported : Text := ['=', '#']
+def maxAttrs : Nat := 1
+def aliasFrom : Text := ['S']
+def aliasTo : Text := ['S', 'T']
+def mandatory : List Text := [['C'], ['S', 'T'], ['O']]
+def leafIndex : Nat := 0
+
+/-! ### string helpers -/
+
+/-- `strings.Cut(s, separator)`: `none` when the separator does not occur -/
+def cut : Text → Option (Text × Text)
+  | [] => none
+  | c :: r =>
+    if c = separator then some ([], r)
+    else match cut r with
+      | none => none
+      | some (a, b) => some (c :: a, b)
+
+/-- `strings.Contains(s, p)` -/
+def hasInfix (p : Text) : Text → Bool
+  | [] => p.isEmpty
+  | c :: r => p.isPrefixOf (c :: r) || hasInfix p r
+
+/-! ### internal/pkix -/
+
+/-- a Go `map[string]string` built by insertion of absent keys only: association list -/
+abbrev AttrMap := List Attr
+
+/-- `v, ok := m[k]` -/
+def lookup (k : Text) : AttrMap → Option Text
+  | [] => none
+  | (k', v) :: r => if k' = k then some v else lookup k r
+
+/-- `got, ok := m[k]; ok && p(got)` -/
+def present (p : Text → Bool) : Option Text → Bool
+  | some got => p got
+  | none => false
+
+/-- `if attribute.Type == "S" { attribute.Type = "ST" }` -/
+def norm (a : Attr) : Attr := (if a.1 = aliasFrom then aliasTo else a.1, a.2)
+
+/-- inner loop of ParseDistinguishedName over the attributes of one RDN; `none` = error return -/
+def addAttrs : List Attr → AttrMap → Option AttrMap
+  | [], m => some m
+  | a :: as, m =>
+    match lookup (norm a).1 m with
+    | some _ => none                          -- duplicate RDN attribute
+    | none => addAttrs as (m ++ [norm a])
+
+/-- outer loop over the RDNs -/
+def addRDNs : List (List Attr) → AttrMap → Option AttrMap
+  | [], m => some m
+  | rdn :: rest, m =>
+    if rdn.length > maxAttrs then none         -- multi-valued RDN
+    else match addAttrs rdn m with
+      | none => none
+      | some m' => addRDNs rest m'
+
+/-- `attrKeyValue[field] == ""` is an error for every mandatory field -/
+def mandatoryPresent (m : AttrMap) : Bool :=
+  mandatory.all (fun f => present (fun v => !v.isEmpty) (lookup f m))
+
+/-- `pkix.ParseDistinguishedName(text)` given what `ldap.ParseDN(text)` answered -/
+def parseDN (text : Text) (rdns : Option (List (List Attr))) : Option AttrMap :=
+  if hasInfix unsupported text then none
+  else match rdns with
+    | none => none
+    | some rs =>
+      match addRDNs rs [] with
+      | none => none
+      | some m => if mandatoryPresent m then some m else none
+
+/-- `pkix.IsSubsetDN(dn1, dn2)`: false as soon as `got, ok := dn2[key]; !ok || got != value` -/
+def isSubset (dn1 dn2 : AttrMap) : Bool :=
+  dn1.all (fun kv => present (fun got => got == kv.2) (lookup kv.1 dn2))
+
+/-! ### verifier.verifyX509TrustedIdentities -/
+
+/-- the `for _, identity := range trustedIdentities` loop; `none` = an error was returned -/
+def collect : List Identity → List AttrMap → Option (List AttrMap)
+  | [], acc => some acc
+  | id :: rest, acc =>
+    match cut id.raw with
+    | none => none                                      -- missing separator
+    | some (pfx, val) =>
+      if pfx = x509Subject then
+        if val.isEmpty then none                        -- without an identity value
+        else match parseDN val id.rdns with
+          | none => none
+          | some m => collect rest (acc ++ [m])
+      else collect rest acc                             -- other identity kinds are ignored
+
+/-- `verifyX509TrustedIdentities(_, identities, certs) == nil` -/
+def verifyIdentities (identities : List Identity) (chain : List DN) : Bool :=
+  if identities.any (fun id => id.raw == wildcard) then true
+  else match collect identities [] with
+    | none => false
+    | some [] => false                                  -- no x509 trusted identities are configured
+    | some ms =>
+      match chain[leafIndex]? with
+      | none => false                                   -- unreachable: a verified envelope has a chain
+      | some leaf =>
+        match parseDN leaf.text leaf.rdns with
+        | none => false
+        | some l => ms.any (fun m => isSubset m l)
+
+/-- `processSignature`: trust-store authenticity passed (the harness arranges that), no plugin
+owns the trusted-identity capability; the identity check's error overwrites the result. -/
+def run (i : Input) : Obs := { pass := verifyIdentities i.identities i.chain }
+
+/-! ### specification (declarative, on attribute sets) -/
+
+/-- the attributes of a parsed DN after the alias, as a flat list -/
+def flat (rs : List (List Attr)) : List Attr := rs.flatten.map norm
+
+def attrsOf : Option (List (List Attr)) → List Attr
+  | some rs => flat rs
+  | none => []
+
+/-- no attribute type occurs twice -/
+def nodupKeys : List Attr → Bool
+  | [] => true
+  | a :: r => !(r.any (fun b => b.1 == a.1)) && nodupKeys r
+
+/-- every mandatory attribute occurs with a non-empty value -/
+def hasMandatory (m : List Attr) : Bool :=
+  mandatory.all (fun f => m.any (fun a => a.1 == f && !a.2.isEmpty))
+
+/-- a distinguished name notation can interpret -/
+def validDN (text : Text) (rdns : Option (List (List Attr))) : Bool :=
+  !hasInfix unsupported text &&
+  match rdns with
+  | none => false
+  | some rs => rs.all (fun r => decide (r.length ≤ maxAttrs)) && nodupKeys (flat rs) && hasMandatory (flat rs)
+
+def isWild (id : Identity) : Bool := id.raw == wildcard
+
+/-- the value of an `x509.subject:` identity -/
+def x509Value (id : Identity) : Option Text :=
+  match cut id.raw with
+  | some (pfx, val) => if pfx = x509Subject then some val else none
+  | none => none
+
+/-- an identity the check refuses outright: no separator, or `x509.subject:` with an empty or
+uninterpretable value -/
+def malformed (id : Identity) : Bool :=
+  match cut id.raw with
+  | none => true
+  | some (pfx, val) => pfx == x509Subject && (val.isEmpty || !validDN val id.rdns)
+
+/-- a well-formed `x509.subject` identity -/
+def usable (id : Identity) : Bool :=
+  match x509Value id with
+  | some val => !val.isEmpty && validDN val id.rdns
+  | none => false
+
+def isX509 (id : Identity) : Bool := (x509Value id).isSome
+
+/-- every attribute of the identity occurs with an equal value in `attrs` -/
+def within (id : Identity) (attrs : List Attr) : Bool :=
+  usable id && (attrsOf id.rdns).all (fun a => attrs.contains a)
+
+def leafOf (i : Input) : Option DN := i.chain.head?
+
+def leafValid (i : Input) : Bool :=
+  match leafOf i with
+  | some d => validDN d.text d.rdns
+  | none => false
+
+/-- attributes of the leaf subject (empty when it cannot be interpreted) -/
+def leafAttrs (i : Input) : List Attr :=
+  match leafOf i with
+  | some d => if validDN d.text d.rdns then attrsOf d.rdns else []
+  | none => []
+
+def anyWild (i : Input) : Bool := i.identities.any isWild
+def anyMalformed (i : Input) : Bool := i.identities.any malformed
+def anyX509 (i : Input) : Bool := i.identities.any isX509
+def anyWithinLeaf (i : Input) : Bool := i.identities.any (fun id => within id (leafAttrs i))
+
+/-- the minted attributes after the alias -/
+def mintedAttrs (i : Input) : List Attr := i.minted.map norm
+
+/-- assumption on the trusted rendering (x509 `Name.String()` followed by `ldap.ParseDN`): an
+interpretable leaf subject shows no attribute the certificate was not minted with. Checked
+on every case (it is also a clause). -/
+def wf (i : Input) : Bool := (leafAttrs i).all (fun a => (mintedAttrs i).contains a)
+
+def spec (i : Input) : Bool :=
+  anyWild i || (!anyMalformed i && anyX509 i && leafValid i && anyWithinLeaf i)
+
+/-- the property over observables, relative to what the trusted libraries show of the subject -/
+def coreClauses (i : Input) (o : Obs) : Clauses :=
+  [ ("wildcard_accepts_every_subject", !anyWild i || o.pass),
+    ("pass_only_if_a_listed_identity_is_within_the_leaf_subject",
+      !(o.pass && !anyWild i) || anyWithinLeaf i),
+    ("identity_within_leaf_subject_passes",
+      !(!anyWild i && !anyMalformed i && leafValid i && anyWithinLeaf i) || o.pass),
+    ("malformed_identity_fails_closed", !(!anyWild i && anyMalformed i) || !o.pass),
+    ("no_x509_identity_fails_closed", !(!anyWild i && !anyX509 i) || !o.pass),
+    ("uninterpretable_leaf_fails_closed", !(!anyWild i && !leafValid i) || !o.pass) ]
+
+/-- the same soundness statement against the ground truth (the attributes the leaf was minted
+with), and the assumption that connects the two -/
+def mintedClauses (i : Input) (o : Obs) : Clauses :=
+  [ ("pass_only_if_a_listed_identity_is_within_the_minted_leaf_subject",
+      !(o.pass && !anyWild i) || i.identities.any (fun id => within id (mintedAttrs i))),
+    ("trusted_rendering_shows_only_minted_attributes", wf i) ]
+
+def clauses (i : Input) (o : Obs) : Clauses := coreClauses i o ++ mintedClauses i o
+
+def Holds (i : Input) (o : Obs) : Bool := (clauses i o).holds
+
+def judge := judgeWith run clauses
 
 end NotationModel.C04
